@@ -122,13 +122,25 @@ func installMuxHooks(r *kernel.Run) *muxModels {
 	return mm
 }
 
-// muxMutex reaches the listener's private *sync.RWMutex (field closedMutex) for TryLock probing.
+// muxMutex reaches the listener's private sync.RWMutex for TryLock probing. The field is found by type (the one field of
+// the struct that is a sync.RWMutex or a pointer to one), so renaming it or changing pointer to value does not matter.
 func muxMutex(r *kernel.Run, l *nodenet.MultiplexingListener) *sync.RWMutex {
-	f := reflect.ValueOf(l).Elem().FieldByName("closedMutex")
-	if !f.IsValid() || f.Kind() != reflect.Ptr || f.Type().Elem() != reflect.TypeOf(sync.RWMutex{}) || f.IsNil() {
-		r.HarnessErr("MultiplexingListener.closedMutex (*sync.RWMutex) not found: the lock-aware scheduler cannot probe the lock")
+	v := reflect.ValueOf(l).Elem()
+	rw := reflect.TypeOf(sync.RWMutex{})
+	var found []*sync.RWMutex
+	for i := 0; i < v.NumField(); i++ {
+		f := v.Field(i)
+		switch {
+		case f.Kind() == reflect.Ptr && f.Type().Elem() == rw && !f.IsNil():
+			found = append(found, (*sync.RWMutex)(unsafe.Pointer(f.Pointer())))
+		case f.Type() == rw && f.CanAddr():
+			found = append(found, (*sync.RWMutex)(unsafe.Pointer(f.UnsafeAddr())))
+		}
 	}
-	return (*sync.RWMutex)(unsafe.Pointer(f.Pointer()))
+	if len(found) != 1 {
+		r.HarnessErr("MultiplexingListener has %d sync.RWMutex fields (expected exactly one): the lock-aware scheduler cannot probe the lock", len(found))
+	}
+	return found[0]
 }
 
 // released must be called by the engine when a goroutine parked at send.pre is released.
